@@ -542,7 +542,7 @@ func (n *MacroNameNode) Equal(other value.Value) bool {
 
 func (n *MacroNameNode) String() string {
 	if IdentifierRegexp.MatchString(n.Value) {
-		return n.Value
+		return n.Value + "!"
 	}
 
 	var buff strings.Builder
@@ -550,6 +550,7 @@ func (n *MacroNameNode) String() string {
 
 	if PrefixedIdentifierRegexp.MatchString(n.Value) {
 		buff.WriteString(n.Value)
+		buff.WriteByte('!')
 		return buff.String()
 	}
 
